@@ -233,17 +233,46 @@ type c13Item struct {
 	el  c13El
 }
 
+// An option set is imc + 3*u: imc says how IgnoreMissingChildren is passed (the only option
+// annotate.Change documents), u in [0,c13NUnrelated) encodes the options that must not matter:
+// Threshold (absent|1m), IgnoreInconsistency (absent|true|false), ChildFilter (absent|reject all|accept all).
 const (
-	c13OptNone = iota
-	c13OptIgnore
-	c13OptIgnoreFalse
-	c13OptThresholdIgnore
-	c13OptThreshold
-	c13NOpts
+	c13OptNone        = 0 // IgnoreMissingChildren not passed
+	c13OptIgnore      = 1 // IgnoreMissingChildren(true)
+	c13OptIgnoreFalse = 2 // IgnoreMissingChildren(false)
+	c13NUnrelated     = 18
+	c13NOpts          = 3 * c13NUnrelated
 )
 
-var c13OptName = [c13NOpts]string{"none", "IgnoreMissingChildren(true)", "IgnoreMissingChildren(false)",
-	"Threshold(1m),IgnoreMissingChildren(true)", "Threshold(1m)"}
+func c13OptStr(opt int) string {
+	imc, u := opt%3, opt/3
+	var ps []string
+	if u%2 == 1 {
+		ps = append(ps, "Threshold(1m)")
+	}
+	switch (u / 2) % 3 {
+	case 1:
+		ps = append(ps, "IgnoreInconsistency(true)")
+	case 2:
+		ps = append(ps, "IgnoreInconsistency(false)")
+	}
+	switch u / 6 {
+	case 1:
+		ps = append(ps, "ChildFilter(reject all)")
+	case 2:
+		ps = append(ps, "ChildFilter(accept all)")
+	}
+	switch imc {
+	case c13OptIgnore:
+		ps = append(ps, "IgnoreMissingChildren(true)")
+	case c13OptIgnoreFalse:
+		ps = append(ps, "IgnoreMissingChildren(false)")
+	}
+	if len(ps) == 0 {
+		return "none"
+	}
+	return strings.Join(ps, ",")
+}
 
 const (
 	c13FaultPlain   = iota // unique sentinel, nil history
@@ -373,20 +402,35 @@ func (m *c13Model) describeSource() any {
 	return d
 }
 
-func (m *c13Model) ignore() bool { return m.opt == c13OptIgnore || m.opt == c13OptThresholdIgnore }
+// ignore: missing children are ignored, i.e. IgnoreMissingChildren(true) was passed. No other
+// option is documented to change what annotate.Change does.
+func (m *c13Model) ignore() bool { return m.opt%3 == c13OptIgnore }
 
 func (m *c13Model) options() []annotate.Option {
-	switch m.opt {
-	case c13OptIgnore:
-		return []annotate.Option{annotate.IgnoreMissingChildren(true)}
-	case c13OptIgnoreFalse:
-		return []annotate.Option{annotate.IgnoreMissingChildren(false)}
-	case c13OptThresholdIgnore:
-		return []annotate.Option{annotate.Threshold(time.Minute), annotate.IgnoreMissingChildren(true)}
-	case c13OptThreshold:
-		return []annotate.Option{annotate.Threshold(time.Minute)}
+	imc, u := m.opt%3, m.opt/3
+	var os []annotate.Option
+	if u%2 == 1 {
+		os = append(os, annotate.Threshold(time.Minute))
 	}
-	return nil
+	switch (u / 2) % 3 {
+	case 1:
+		os = append(os, annotate.IgnoreInconsistency(true))
+	case 2:
+		os = append(os, annotate.IgnoreInconsistency(false))
+	}
+	switch u / 6 {
+	case 1:
+		os = append(os, annotate.ChildFilter(func(osm.FeatureID) bool { return false }))
+	case 2:
+		os = append(os, annotate.ChildFilter(func(osm.FeatureID) bool { return true }))
+	}
+	switch imc {
+	case c13OptIgnore:
+		os = append(os, annotate.IgnoreMissingChildren(true))
+	case c13OptIgnoreFalse:
+		os = append(os, annotate.IgnoreMissingChildren(false))
+	}
+	return os
 }
 
 // change builds a fresh osm.Change (deep copies) from the model.
@@ -445,7 +489,7 @@ func (m *c13Model) single(i int) *c13Model {
 }
 
 func (m *c13Model) describe() map[string]any {
-	d := map[string]any{"option": c13OptName[m.opt], "datasource": c13ModeName[m.mode]}
+	d := map[string]any{"option": c13OptStr(m.opt), "datasource": c13ModeName[m.mode]}
 	secs := map[string][]string{}
 	for _, it := range m.items {
 		secs[c13SecName[it.sec]] = append(secs[c13SecName[it.sec]], it.el.str())
@@ -1468,7 +1512,13 @@ func c13PickVersion0(r *gen.R, h *c13Hist, sec int) int {
 
 func c13GenModel(r *gen.R) *c13Model {
 	m := &c13Model{hist: map[c13Key]*c13Hist{}, fault: map[c13Key]int{}}
-	m.opt, m.mode = r.Intn(c13NOpts), r.Intn(c13NModes)
+	m.mode = r.Intn(c13NModes)
+	m.opt = r.Intn(3) // IgnoreMissingChildren absent | true | false, crossed with the options that must not matter
+	if r.Chance(0.3) {
+		m.opt += 3 * 1 // Threshold
+	}
+	m.opt += 3 * 2 * r.Pick(0, 0, 0, 1, 1, 1, 2)
+	m.opt += 3 * 6 * r.Pick(0, 0, 0, 1, 2)
 	// clean: every modified/deleted element has a predecessor, so that also without the option
 	// the whole diff is produced and compared; otherwise missing pieces are frequent
 	clean := r.Chance(0.45)
@@ -1646,7 +1696,7 @@ func c13Exec(c fw.Case) *fw.Result {
 		// subset of versions 1..6 in several orders, plus duplicated entries, empty and missing.
 		sec, kind, ign := int(c.Int("section")), int(c.Int("kind")), c.Int("ignore") == 1
 		r := gen.New(c.Seed, "c13enum")
-		n := 0
+		n, crossed := 0, 0
 		for v := 1; v <= 6; v++ {
 			for mask := -2; mask < 64; mask++ {
 				orders := 5
@@ -1656,8 +1706,9 @@ func c13Exec(c fw.Case) *fw.Result {
 				for ord := 0; ord < orders; ord++ {
 					m := &c13Model{hist: map[c13Key]*c13Hist{}, fault: map[c13Key]int{}, secNil: [3]bool{true, true, true}}
 					m.mode = n % c13NModes
+					imc := []int{c13OptNone, c13OptIgnoreFalse}[n%2]
 					if ign {
-						m.opt = c13OptIgnore
+						imc = c13OptIgnore
 					}
 					id := int64(7)
 					m.items = []c13Item{{sec, c13MakeEl(r, kind, id, v, false)}}
@@ -1685,11 +1736,39 @@ func c13Exec(c fw.Case) *fw.Result {
 					if mask != -2 || n%2 == 0 { // missing: map entry absent or explicit not-found
 						m.hist[c13Key{kind, id}] = h
 					}
-					c13Judge(res, m, c, false)
+					// the options that must not matter: all 18 combinations on every history without a
+					// predecessor (first order of each), one rotating combination otherwise
+					us := []int{n % c13NUnrelated}
+					if ord == 0 && len(c13Prev(h, v)) == 0 {
+						us = us[:0]
+						for u := 0; u < c13NUnrelated; u++ {
+							us = append(us, u)
+						}
+					}
+					for _, u := range us {
+						m.opt = imc + 3*u
+						c13Judge(res, m, c, false)
+						crossed++
+					}
 					n++
 				}
 			}
+			// the injected datasource error against every option combination
+			for flavour := 0; flavour < c13NFaults; flavour++ {
+				for u := 0; u < c13NUnrelated; u++ {
+					m := &c13Model{hist: map[c13Key]*c13Hist{}, fault: map[c13Key]int{{kind, 7}: flavour}, secNil: [3]bool{true, true, true}, mode: (flavour + u) % c13NModes}
+					m.opt = []int{c13OptNone, c13OptIgnoreFalse}[u%2] + 3*u
+					if ign {
+						m.opt = c13OptIgnore + 3*u
+					}
+					m.items = []c13Item{{sec, c13MakeEl(r, kind, 7, v, false)}}
+					m.hist[c13Key{kind, 7}] = &c13Hist{present: true, entries: []c13El{c13MakeEl(r, kind, 7, 1, false), c13MakeEl(r, kind, 7, v+1, false)}}
+					c13Judge(res, m, c, false)
+					crossed++
+				}
+			}
 		}
+		res.Add("enumerated_history_option_pairs", int64(crossed))
 		res.Add("enumerated_histories", int64(n))
 		res.Sample = map[string]any{"section": c13SecName[sec], "kind": c13KindName[kind], "ignore_missing": ign,
 			"element_versions": "1..6", "history_versions": "every subset of 1..6; ascending, descending, 2 shuffles, doubled+shuffled; empty; not found", "histories": n}
@@ -1728,7 +1807,7 @@ func c13Exec(c fw.Case) *fw.Result {
 					continue
 				}
 				m := &c13Model{hist: map[c13Key]*c13Hist{ka: {present: true}, kb: {present: true}}, fault: map[c13Key]int{},
-					secNil: [3]bool{true, true, true}, mode: mode, opt: []int{c13OptNone, c13OptIgnore}[n%2]}
+					secNil: [3]bool{true, true, true}, mode: mode, opt: []int{c13OptNone, c13OptIgnore}[n%2] + 3*(n%c13NUnrelated)}
 				var l [3][3][]c13Ref
 				for pos := 0; pos < 5; pos++ {
 					k := kb
@@ -1791,7 +1870,7 @@ func init() {
 		Level: "exploration",
 		Rule: "random (osmChange, histories, option, datasource) triples from a harness-side model: 0-4 elements in each of the nine (create|modify|delete)x(node|way|relation) cells over small id pools " +
 			"(same feature in several sections), histories sorted/reversed/shuffled with version gaps, later versions, duplicates of the element's own version, duplicated predecessors, large versions, empty, or not found; " +
-			"five option sets; five datasource behaviours behind a call-recording wrapper (own sentinel, own wrapped typed error, the library's map datasource filled directly, and histories handed over as an *osm.OSM or spread over the sections of an *osm.Change and turned into a datasource by the library's own HistoryDatasource() methods - grouped, interleaved, round-robin or two-run layouts) that can inject a non-not-found error (three flavours); " +
+			"54 option sets (IgnoreMissingChildren absent|true|false x Threshold absent|1m x IgnoreInconsistency absent|true|false x ChildFilter absent|reject|accept), in the enumeration every history without predecessor and every injected-error flavour against all 18 combinations of the options that must not matter; five datasource behaviours behind a call-recording wrapper (own sentinel, own wrapped typed error, the library's map datasource filled directly, and histories handed over as an *osm.OSM or spread over the sections of an *osm.Change and turned into a datasource by the library's own HistoryDatasource() methods - grouped, interleaved, round-robin or two-run layouts) that can inject a non-not-found error (three flavours); " +
 			"plus a seed-independent small-scope enumeration: one modified/deleted element of version 1..6 against every subset of history versions 1..6 in five orders, empty and missing, per kind, section and option, and two histories handed to HistoryDatasource() in every interleaving and every admissible section spread. " +
 			"The expectation comes from an independent reference (sort by version, first below). One evaluation per changed element with signature (section, kind, history features, strict|ignore, outcome) " +
 			"and one per change with signature (cell mask, option set, datasource, error class); distinct_nontrivial counts distinct signatures.",
@@ -1802,7 +1881,8 @@ func init() {
 			"when the greatest version below the element's own occurs twice in a history, either entry is accepted as the old state",
 			"the call rewrites the Visible flag of the input elements in place (they are shared with the diff); input immutability is not part of the statement, so changes to the input are counted as observations, not asserted",
 			"create actions must carry exactly one element in Action.OSM and none in Old/New, modify/delete exactly one in Old and one in New and none in Action.OSM (diff.go documents this population); nil and empty are treated alike; Diff.Changesets and the attributes of the wrapping *osm.OSM are not asserted",
-			"versions <= 0, negative ids, nil elements, a cancelled context and IgnoreInconsistency are outside the statement: versions <= 0 are executed without assertion, the others are not generated",
+			"versions <= 0, negative ids, nil elements and a cancelled context are outside the statement: versions <= 0 are executed without assertion, the others are not generated",
+			"'missing children are ignored' means IgnoreMissingChildren(true) was passed - the only option annotate.Change documents; Threshold, IgnoreInconsistency(true|false), ChildFilter and IgnoreMissingChildren(false) must not change the outcome: without IgnoreMissingChildren(true) a missing history and a missing earlier version alike are reported as the typed error",
 			"a panic of annotate.Change on such inputs is reported as a violation (no diff was yielded)",
 			"for datasources built by the library from an *osm.OSM / *osm.Change: the versions of a feature are returned in source order (creates, modifies, deletes for a change), create/modify entries are visible and delete entries are not (the model only places them so); the source object being modified is an observation, asserted only through its effect: building the datasource a second time from the same object must give the same diff",
 		},
